@@ -687,7 +687,15 @@ abbrev tMSGS : List (String × Shape) :=
   []
 abbrev tOFX : List (String × Shape) :=
   [("signonmsgsrqv1", .sub), ("bankmsgsrqv1", .sub), ("creditcardmsgsrqv1", .sub),
-   ("invstmtmsgsrqv1", .sub)]
+   ("invstmtmsgsrqv1", .sub), ("signupmsgsrqv1", .sub), ("profmsgsrqv1", .sub), ("tax1099msgsrqv1", .sub)]
+abbrev tACCTINFORQ : List (String × Shape) :=
+  [("dtacctup", .date)]
+abbrev tACCTINFOTRNRQ : List (String × Shape) :=
+  [("trnuid", .text), ("acctinforq", .sub)]
+abbrev tPROFRQ : List (String × Shape) :=
+  [("clientrouting", .text), ("dtprofup", .date)]
+abbrev tPROFTRNRQ : List (String × Shape) :=
+  [("trnuid", .text), ("profrq", .sub)]
 
 def reqTable : List (String × List (String × Shape)) :=
   [("FI", tFI),
@@ -711,7 +719,14 @@ def reqTable : List (String × List (String × Shape)) :=
    ("BANKMSGSRQV1", tMSGS),
    ("CREDITCARDMSGSRQV1", tMSGS),
    ("INVSTMTMSGSRQV1", tMSGS),
-   ("OFX", tOFX)]
+   ("OFX", tOFX),
+   ("ACCTINFORQ", tACCTINFORQ),
+   ("ACCTINFOTRNRQ", tACCTINFOTRNRQ),
+   ("SIGNUPMSGSRQV1", tMSGS),
+   ("PROFRQ", tPROFRQ),
+   ("PROFTRNRQ", tPROFTRNRQ),
+   ("PROFMSGSRQV1", tMSGS),
+   ("TAX1099MSGSRQV1", tMSGS)]
 
 def clsFitsB (S : Schema) (name : String) (tbl : List (String × Shape)) : Bool :=
   match S.findIdx? name.toList with
@@ -1122,6 +1137,8 @@ end
 /-- the text contains no entity spelling that `saxutils.unescape` would rewrite -/
 def EntityFree (s : Str) : Prop := unescape s = s
 
+instance : DecidablePred EntityFree := fun s => inferInstanceAs (Decidable (unescape s = s))
+
 theorem enforceRequired_none (r : Bool) (v' : Val) (h : Types.enforceRequired r .none = .ok v') : v' = .none := by
   simp only [Types.enforceRequired] at h
   split at h <;> simp at h
@@ -1340,5 +1357,702 @@ theorem zipIdx_pairwise {α : Type} (l : List α) (n : Nat) : (l.zipIdx n).Pairw
     have := zipIdx_ge l (n + 1) a ha
     show n ≠ a.2
     omega
+
+/-! ## Part 7: the statement request as a whole -/
+
+theorem findIdx_inj {S : Schema} {a b : Str} {i : Nat} (ha : S.findIdx? a = some i) (hb : S.findIdx? b = some i) :
+    a = b := by
+  simp only [Schema.findIdx?] at ha hb
+  rw [List.findIdx?_eq_some_iff_getElem] at ha hb
+  obtain ⟨h1, ha, _⟩ := ha
+  obtain ⟨_, hb, _⟩ := hb
+  simp only [Bool.and_eq_true, beq_iff_eq] at ha hb
+  exact ha.1.symm.trans hb.1
+
+theorem isCls_unique {S : Schema} {a b : String} {n : Node} (ha : isCls S a n = true) (hb : isCls S b n = true) :
+    a = b := by
+  simp only [isCls] at ha hb
+  split at ha
+  · rename_i c i hc hi
+    split at hb
+    · rename_i c' i' hc' hi'
+      simp only [beq_iff_eq] at ha hb
+      rw [hc] at hc'
+      simp only [Option.some.injEq] at hc'
+      subst hc' ha hb
+      exact String.toList_inj.mp (findIdx_inj hi hi')
+    · simp at hb
+  · simp at ha
+
+theorem isWrapper_unique {S : Schema} {k k' : RKind} {w : Node} (h : isWrapper S k w = true)
+    (h' : isWrapper S k' w = true) : k = k' := by
+  have := isCls_unique h h'
+  cases k <;> cases k' <;> simp [RKind.wrapperName] at this <;> rfl
+
+theorem rel2_mem_right {α β : Type} {R : α → β → Prop} {l : List α} {l' : List β} (h : Rel2 R l l') {b : β}
+    (hb : b ∈ l') : ∃ a ∈ l, R a b := by
+  induction h with
+  | nil => simp at hb
+  | cons hab _ ih =>
+    rcases List.mem_cons.mp hb with rfl | hb
+    · exact ⟨_, by simp, hab⟩
+    · obtain ⟨a, ha, hr⟩ := ih hb
+      exact ⟨a, List.mem_cons_of_mem _ ha, hr⟩
+
+theorem rel2_mem_left {α β : Type} {R : α → β → Prop} {l : List α} {l' : List β} (h : Rel2 R l l') {a : α}
+    (ha : a ∈ l) : ∃ b ∈ l', R a b := by
+  induction h with
+  | nil => simp at ha
+  | cons hab _ ih =>
+    rcases List.mem_cons.mp ha with rfl | ha
+    · exact ⟨_, by simp, hab⟩
+    · obtain ⟨b, hb, hr⟩ := ih ha
+      exact ⟨b, List.mem_cons_of_mem _ hb, hr⟩
+
+theorem rel2_with_mem {α β : Type} {R : α → β → Prop} {l : List α} {l' : List β} (h : Rel2 R l l') :
+    Rel2 (fun a b => R a b ∧ a ∈ l) l l' := by
+  induction h with
+  | nil => exact .nil
+  | cons hab _ ih =>
+    exact .cons ⟨hab, by simp⟩ (forall2_imp ih (fun a b h => ⟨h.1, List.mem_cons_of_mem _ h.2⟩))
+
+section
+variable {S : Schema} {cv : Conv}
+
+/-- request at position `p.2` of the sorted list is wrapped into `w` -/
+def Rw (S : Schema) (cv : Conv) (cfg : Cfg) (us : Nat → Str) (p : Req × Nat) (w : Node) : Prop :=
+  wrap S cv cfg p.1 (us p.2) = .ok w
+
+/-- `w` is a wrapper of one of the request kinds carried by message set `m` -/
+def qm (S : Schema) (m : MsgSet) (w : Node) : Bool := (kindsUnder m).any (fun k => isWrapper S k w)
+
+theorem mem_kindsUnder (k : RKind) (m : MsgSet) : k ∈ kindsUnder m ↔ k.msgset = m := by
+  cases k <;> cases m <;> simp [kindsUnder, RKind.msgset]
+
+theorem wrapGroup_inv {cfg : Cfg} {us : Nat → Str} {g : RKind × List (Req × Nat)} {t : MsgSet × List Node}
+    (h : wrapGroup S cv cfg us g = .ok t) : t.1 = g.1.msgset ∧ Rel2 (Rw S cv cfg us) g.2 t.2 := by
+  rw [wrapGroup] at h
+  obtain ⟨ws, hws, h⟩ := bind_ok h
+  simp only [pure, Except.pure, Except.ok.injEq] at h
+  subst h
+  exact ⟨rfl, mapM_forall2 hws⟩
+
+theorem msgArgs_inv {g : MsgSet × List (MsgSet × List Node)} {e : Str × Node} (h : msgArgs S cv g = .ok e) :
+    ∃ inst, e = kv g.1.attrName inst ∧ mk S cv g.1.className (g.2.flatMap (·.2)) [] = .ok inst := by
+  rw [msgArgs] at h
+  obtain ⟨inst, hinst, h⟩ := bind_ok h
+  simp only [pure, Except.pure, Except.ok.injEq] at h
+  exact ⟨inst, h.symm, hinst⟩
+
+/-- the wrappers, flattened, stand in one-to-one correspondence with the sorted, numbered requests; and the members
+    of the groups dispatched to message set `m` are exactly the wrappers of `m`'s kinds -/
+theorem wrappers_flat {cfg : Cfg} {us : Nat → Str} (sz : List (Req × Nat)) (trnrqs : List (MsgSet × List Node))
+    (hgroups : Rel2 (fun g t => t.1 = g.1.msgset ∧ Rel2 (Rw S cv cfg us) g.2 t.2)
+      (groupBy (fun p : Req × Nat => p.1.kind) sz) trnrqs)
+    (hwrap : ∀ p ∈ sz, ∀ w, Rw S cv cfg us p w → isWrapper S p.1.kind w = true) :
+    Rel2 (Rw S cv cfg us) sz (trnrqs.flatMap (·.2)) ∧
+    ∀ m, (trnrqs.filter (fun t => decide (t.1 = m))).flatMap (·.2) = (trnrqs.flatMap (·.2)).filter (qm S m) := by
+  constructor
+  · have := forall2_flatMap (f := fun g : RKind × List (Req × Nat) => g.2) (g := fun t : MsgSet × List Node => t.2)
+      (forall2_imp hgroups (fun g t h => h.2))
+    rwa [groupBy_flatten] at this
+  · intro m
+    apply flatMap_filter_groups
+    intro t ht w hw
+    obtain ⟨g, hg, ht1, hrel⟩ := rel2_mem_right hgroups ht
+    obtain ⟨p, hp, hpw⟩ := rel2_mem_right hrel hw
+    obtain ⟨_, hall⟩ := groupBy_mem (fun p : Req × Nat => p.1.kind) sz g.1 g.2 hg
+    obtain ⟨hkind, hpsz⟩ := hall p hp
+    have hw1 : isWrapper S g.1 w = true := hkind ▸ hwrap p hpsz w hpw
+    rw [ht1]
+    by_cases hm : g.1.msgset = m
+    · simp only [hm, decide_true, qm, List.any_eq_true]
+      exact ⟨g.1, (mem_kindsUnder _ _).mpr hm, hw1⟩
+    · simp only [hm, decide_false, qm]
+      apply Bool.eq_false_iff.mpr
+      intro hany
+      obtain ⟨k, hk, hkw⟩ := List.any_eq_true.mp hany
+      have := isWrapper_unique hkw hw1
+      subst this
+      exact hm ((mem_kindsUnder _ _).mp hk)
+
+/-- per kind: the wrappers of kind `k`, in order, stand against the sorted requests of kind `k`, in order -/
+theorem wrappers_of_kind {cfg : Cfg} {us : Nat → Str} (sz : List (Req × Nat)) (allW : List Node)
+    (hrel : Rel2 (Rw S cv cfg us) sz allW)
+    (hwrap : ∀ p ∈ sz, ∀ w, Rw S cv cfg us p w → isWrapper S p.1.kind w = true) (k : RKind) :
+    Rel2 (fun p w => Rw S cv cfg us p w ∧ p ∈ sz) (sz.filter (fun p => decide (p.1.kind = k)))
+      (allW.filter (isWrapper S k)) := by
+  apply forall2_filter (rel2_with_mem hrel)
+  intro p w ⟨hpw, hp⟩
+  have hw1 := hwrap p hp w hpw
+  by_cases hk : p.1.kind = k
+  · subst hk; simp [hw1]
+  · simp only [hk, decide_false]
+    symm
+    apply Bool.eq_false_iff.mpr
+    intro hkw
+    exact hk (isWrapper_unique hw1 hkw)
+
+end
+theorem zipIdx_mem_fst {α : Type} (l : List α) (n : Nat) : ∀ a ∈ l.zipIdx n, a.1 ∈ l := by
+  induction l generalizing n with
+  | nil => simp
+  | cons x l ih =>
+    intro a ha
+    simp only [List.zipIdx_cons, List.mem_cons] at ha
+    rcases ha with rfl | ha
+    · simp
+    · exact List.mem_cons_of_mem _ (ih (n + 1) a ha)
+
+theorem attrName_inj {m m' : MsgSet} (h : m.attrName.toList = m'.attrName.toList) : m = m' := by
+  have := String.toList_inj.mp h
+  cases m <;> cases m' <;> simp [MsgSet.attrName] at this <;> rfl
+
+theorem lookup_msgs_none {Q : (MsgSet × List (MsgSet × List Node)) → Node → Prop}
+    {gs : List (MsgSet × List (MsgSet × List Node))} {msgs : List (Str × Node)}
+    (h : Rel2 (fun g e => ∃ inst, e = kv g.1.attrName inst ∧ Q g inst) gs msgs) (m : MsgSet)
+    (hno : ∀ g ∈ gs, g.1 ≠ m) : lookup m.attrName.toList msgs = none := by
+  induction h with
+  | nil => rfl
+  | @cons g e gs msgs hge _ ih =>
+    obtain ⟨inst, rfl, _⟩ := hge
+    have hne : g.1.attrName.toList ≠ m.attrName.toList := fun e => hno g (by simp) (attrName_inj e)
+    simp only [kv, lookup, hne, if_false]
+    exact ih (fun g' hg' => hno g' (List.mem_cons_of_mem _ hg'))
+
+theorem lookup_msgs_some {Q : (MsgSet × List (MsgSet × List Node)) → Node → Prop}
+    {gs : List (MsgSet × List (MsgSet × List Node))} {msgs : List (Str × Node)}
+    (h : Rel2 (fun g e => ∃ inst, e = kv g.1.attrName inst ∧ Q g inst) gs msgs)
+    (hnd : (gs.map (·.1)).Pairwise (· ≠ ·)) {g : MsgSet × List (MsgSet × List Node)} (hg : g ∈ gs) :
+    ∃ inst, lookup g.1.attrName.toList msgs = some inst ∧ Q g inst := by
+  induction h with
+  | nil => simp at hg
+  | @cons g' e gs msgs hge hrest ih =>
+    obtain ⟨inst, rfl, hq⟩ := hge
+    simp only [List.map_cons, List.pairwise_cons] at hnd
+    rcases List.mem_cons.mp hg with rfl | hg'
+    · exact ⟨inst, by simp [kv, lookup], hq⟩
+    · have hne : g'.1 ≠ g.1 := hnd.1 g.1 (List.mem_map.mpr ⟨g, hg', rfl⟩)
+      have hne' : g'.1.attrName.toList ≠ g.1.attrName.toList := fun e => hne (attrName_inj e)
+      obtain ⟨inst', hl, hq'⟩ := ih hnd.2 hg'
+      exact ⟨inst', by simp [kv, lookup, hne', hl], hq'⟩
+
+/-! ## Part 8: assembling `RequestSpec` -/
+
+section
+variable {S : Schema} {cv : Conv} {Ptext : Str → Prop}
+
+/-- one message set of the composed request satisfies its clauses -/
+theorem msgset_clauses_ok (_hS : ReqWF S = true) (cfg : Cfg) (reqs : List Req) (us : Nat → Str) (m : MsgSet)
+    (root : Node) (trnrqs : List (MsgSet × List Node))
+    (hrel : Rel2 (Rw S cv cfg us) (sortBy RKind.le Req.kind reqs).zipIdx (trnrqs.flatMap (·.2)))
+    (hwrap : ∀ p ∈ (sortBy RKind.le Req.kind reqs).zipIdx, ∀ w, Rw S cv cfg us p w →
+      isWrapper S p.1.kind w = true ∧ (expWrapper cfg p.1).ok S w = true)
+    -- what the root holds under `m`
+    (hnode : (reqs.filter (fun r => decide (r.kind.msgset = m)) = [] ∧ fieldVal root m.attrName = .val .none) ∨
+      (reqs.filter (fun r => decide (r.kind.msgset = m)) ≠ [] ∧ ∃ ci f, fieldVal root m.attrName =
+          .agg ci f ((trnrqs.flatMap (·.2)).filter (qm S m)) ∧
+        isCls S m.className (.agg ci f ((trnrqs.flatMap (·.2)).filter (qm S m))) = true ∧
+        othersNone [] (.agg ci f ((trnrqs.flatMap (·.2)).filter (qm S m))) = true)) :
+    msgsetClauses S cfg reqs m root = [] := by
+  rcases hnode with ⟨hnil, hnone⟩ | ⟨hne, ci, f, hfv, hcls, hoth⟩
+  · simp [msgsetClauses, hnil, hnone, clause, Node.isNone]
+  · have hne' : (reqs.filter (fun r => decide (r.kind.msgset = m))).isEmpty = false := by
+      cases hl : reqs.filter (fun r => decide (r.kind.msgset = m)) with
+      | nil => exact absurd hl hne
+      | cons a l => rfl
+    simp only [msgsetClauses, hne', Bool.false_eq_true, if_false, hfv, hcls, hoth, Bool.and_self, clause, if_true,
+      List.nil_append, Node.items]
+    have hforeign : ((trnrqs.flatMap (·.2)).filter (qm S m)).all
+        (fun w => (kindsUnder m).any (fun k => isWrapper S k w)) = true := by
+      simp only [List.all_eq_true, List.mem_filter]
+      intro w hw
+      exact hw.2
+    rw [hforeign]
+    simp only [if_true, List.nil_append]
+    -- each kind carried by m
+    have hkind : ∀ k ∈ kindsUnder m,
+        all2 (fun rq w => (expWrapper cfg rq).ok S w) (reqs.filter (fun r => decide (r.kind = k)))
+          (((trnrqs.flatMap (·.2)).filter (qm S m)).filter (isWrapper S k)) = true := by
+      intro k hk
+      have hfil : ((trnrqs.flatMap (·.2)).filter (qm S m)).filter (isWrapper S k) =
+          (trnrqs.flatMap (·.2)).filter (isWrapper S k) := by
+        rw [List.filter_filter]
+        apply List.filter_congr
+        intro w _
+        by_cases hw : isWrapper S k w = true
+        · have : qm S m w = true := List.any_eq_true.mpr ⟨k, hk, hw⟩
+          simp [hw, this]
+        · simp [hw]
+      rw [hfil]
+      have h1 := wrappers_of_kind (S := S) (cv := cv) (cfg := cfg) (us := us) _ _ hrel
+        (fun p hp w hpw => (hwrap p hp w hpw).1) k
+      have h2 : Rel2 (fun p w => (fun rq w => (expWrapper cfg rq).ok S w) p.1 w = true)
+          ((sortBy RKind.le Req.kind reqs).zipIdx.filter (fun p => decide (p.1.kind = k)))
+          ((trnrqs.flatMap (·.2)).filter (isWrapper S k)) :=
+        forall2_imp h1 (fun p w h => (hwrap p h.2 w h.1).2)
+      have h3 := forall2_all2 (P := fun rq w => (expWrapper cfg rq).ok S w) (f := fun p : Req × Nat => p.1) h2
+      rw [zipIdx_filter_fst (fun r : Req => decide (r.kind = k)), filter_sortBy RKind.le Req.kind] at h3
+      · exact h3
+      · intro a; cases a <;> decide
+    apply List.flatMap_eq_nil_iff.mpr
+    intro k hk
+    rw [if_pos (hkind k hk)]
+
+theorem nodupB_of_nodup {α : Type} [DecidableEq α] (l : List α) (h : l.Nodup) : nodupB l = true := by
+  induction l with
+  | nil => rfl
+  | cons a l ih =>
+    rw [List.nodup_cons] at h
+    simp [nodupB, h.1, ih h.2]
+
+theorem pairwise_inj {α β : Type} {g : α → β} {l : List α} (h : l.Pairwise (fun a b => g a ≠ g b)) {a b : α}
+    (ha : a ∈ l) (hb : b ∈ l) (hab : g a = g b) : a = b := by
+  induction l with
+  | nil => simp at ha
+  | cons x l ih =>
+    rw [List.pairwise_cons] at h
+    rcases List.mem_cons.mp ha with rfl | ha' <;> rcases List.mem_cons.mp hb with rfl | hb'
+    · rfl
+    · exact absurd hab (h.1 b hb')
+    · exact absurd hab.symm (h.1 a ha')
+    · exact ih h.2 ha' hb'
+
+theorem nodup_filter_map {α β : Type} {g : α → β} {l : List α} (h : l.Pairwise (fun a b => g a ≠ g b))
+    (p : α → Bool) : ((l.filter p).map g).Nodup := by
+  rw [List.Nodup, List.pairwise_map]
+  exact List.Pairwise.filter p h
+
+/-- the images of three disjoint selections of a list with pairwise distinct images are, concatenated, distinct -/
+theorem nodup_three {α β : Type} {g : α → β} {l : List α} (h : l.Pairwise (fun a b => g a ≠ g b))
+    (p1 p2 p3 : α → Bool) (h12 : ∀ a, p1 a = true → p2 a = true → False)
+    (h13 : ∀ a, p1 a = true → p3 a = true → False) (h23 : ∀ a, p2 a = true → p3 a = true → False) :
+    ((l.filter p1).map g ++ ((l.filter p2).map g ++ (l.filter p3).map g)).Nodup := by
+  have hdis : ∀ (p q : α → Bool), (∀ a, p a = true → q a = true → False) →
+      ∀ x, x ∈ (l.filter p).map g → x ∈ (l.filter q).map g → False := by
+    intro p q hpq x hx hy
+    obtain ⟨a, ha, rfl⟩ := List.mem_map.mp hx
+    obtain ⟨b, hb, hgb⟩ := List.mem_map.mp hy
+    obtain ⟨hal, hpa⟩ := List.mem_filter.mp ha
+    obtain ⟨hbl, hqb⟩ := List.mem_filter.mp hb
+    have := pairwise_inj h hbl hal hgb
+    subst this
+    exact hpq _ hpa hqb
+  rw [List.nodup_append]
+  refine ⟨nodup_filter_map h p1, ?_, ?_⟩
+  · rw [List.nodup_append]
+    refine ⟨nodup_filter_map h p2, nodup_filter_map h p3, ?_⟩
+    intro x hx y hy hxy
+    subst hxy
+    exact hdis p2 p3 h23 x hx hy
+  · intro x hx y hy hxy
+    subst hxy
+    rcases List.mem_append.mp hy with hy | hy
+    · exact hdis p1 p2 h12 x hx hy
+    · exact hdis p1 p3 h13 x hx hy
+
+theorem trnuid_clause_ok (us : Nat → Str) (hinj : ∀ i j, us i = us j → i = j) (l : List Req) (root : Node)
+    (allW : List Node)
+    (hrel : Rel2 (fun p w => fieldVal w "trnuid" = .val (.str (us p.2)) ∧
+      ∀ m, qm S m w = decide (p.1.kind.msgset = m)) l.zipIdx allW)
+    (hnodes : ∀ m : MsgSet, (fieldVal root m.attrName).items = allW.filter (qm S m)) :
+    trnuidClause (allMsgSets.map (·.attrName)) root = [] := by
+  have hm : ∀ m : MsgSet, (allW.filter (qm S m)).map (fun w => strOf (fieldVal w "trnuid")) =
+      ((l.zipIdx).filter (fun p => decide (p.1.kind.msgset = m))).map (fun p => some (us p.2)) := by
+    intro m
+    have h1 := forall2_filter hrel (p := fun p => decide (p.1.kind.msgset = m)) (q := qm S m)
+      (fun p w hr => (hr.2 m).symm)
+    have h2 := forall2_imp h1 (R' := fun p w => some (us p.2) = strOf (fieldVal w "trnuid"))
+      (fun p w hr => by rw [hr.1]; rfl)
+    exact (forall2_map_eq h2).symm
+  have hpw : (l.zipIdx).Pairwise (fun a b => (fun p : Req × Nat => some (us p.2)) a ≠ (fun p : Req × Nat => some (us p.2)) b) := by
+    apply (zipIdx_pairwise l 0).imp
+    intro a b hab heq
+    simp only [Option.some.injEq] at heq
+    exact hab (hinj _ _ heq)
+  have hnd := nodup_three hpw (fun p => decide (p.1.kind.msgset = MsgSet.bank))
+    (fun p => decide (p.1.kind.msgset = MsgSet.creditcard)) (fun p => decide (p.1.kind.msgset = MsgSet.invstmt))
+    (by intro a h1 h2; simp only [decide_eq_true_eq] at h1 h2; rw [h1] at h2; cases h2)
+    (by intro a h1 h2; simp only [decide_eq_true_eq] at h1 h2; rw [h1] at h2; cases h2)
+    (by intro a h1 h2; simp only [decide_eq_true_eq] at h1 h2; rw [h1] at h2; cases h2)
+  simp only [trnuidClause, trnuidsOf, allMsgSets, List.map_cons, List.map_nil, List.flatMap_cons, List.flatMap_nil,
+    List.append_nil, hnodes, hm]
+  rw [nodupB_of_nodup _ hnd]
+  simp [clause]
+
+/-- the order on request class names used by `sorted(requests, key=class name)` is a total order -/
+theorem rkind_order : IsOrder RKind.le where
+  refl := by intro a; cases a <;> decide
+  total := by intro a b; cases a <;> cases b <;> decide
+  trans := by intro a b c; cases a <;> cases b <;> cases c <;> decide
+  antisymm := by intro a b; cases a <;> cases b <;> decide
+
+/-- likewise for `trnrqs.sort(key=message-set class name)` -/
+theorem msgset_order : IsOrder MsgSet.le where
+  refl := by intro a; cases a <;> decide
+  total := by intro a b; cases a <;> cases b <;> decide
+  trans := by intro a b c; cases a <;> cases b <;> cases c <;> decide
+  antisymm := by intro a b; cases a <;> cases b <;> decide
+
+theorem lookup_cons_ne {α : Type} {k k' : Str} {v : α} {r : List (Str × α)} (h : k' ≠ k) :
+    lookup k ((k', v) :: r) = lookup k r := by
+  simp [lookup, h]
+
+theorem mem_zipIdx_of_mem {α : Type} {l : List α} {a : α} (h : a ∈ l) (n : Nat) : ∃ i, (a, i) ∈ l.zipIdx n := by
+  induction l generalizing n with
+  | nil => simp at h
+  | cons x l ih =>
+    rcases List.mem_cons.mp h with rfl | h'
+    · exact ⟨n, by simp [List.zipIdx_cons]⟩
+    · obtain ⟨i, hi⟩ := ih h' (n + 1)
+      exact ⟨i, by simp [List.zipIdx_cons, hi]⟩
+
+theorem groupBy_exists {α κ : Type} [DecidableEq κ] (key : α → κ) {l : List α} {x : α} (hx : x ∈ l) :
+    ∃ g, (key x, g) ∈ groupBy key l := by
+  have hx' : x ∈ l.filter (fun y => decide (key y = key x)) := by simp [hx]
+  rw [← groupBy_flat key l (key x)] at hx'
+  obtain ⟨p, hp, _⟩ := List.mem_flatMap.mp hx'
+  obtain ⟨hp1, hp2⟩ := List.mem_filter.mp hp
+  have : p.1 = key x := by simpa using hp2
+  exact ⟨p.2, this ▸ hp1⟩
+
+theorem qm_of_wrapper {k : RKind} {w : Node} (h : isWrapper S k w = true) (m : MsgSet) :
+    qm S m w = decide (k.msgset = m) := by
+  by_cases hm : k.msgset = m
+  · simp only [hm, decide_true, qm, List.any_eq_true]
+    exact ⟨k, (mem_kindsUnder _ _).mpr hm, h⟩
+  · simp only [hm, decide_false, qm]
+    apply Bool.eq_false_iff.mpr
+    intro hany
+    obtain ⟨k', hk', hkw⟩ := List.any_eq_true.mp hany
+    have := isWrapper_unique hkw h
+    subst this
+    exact hm ((mem_kindsUnder _ _).mp hk')
+
+/-- **the statement request as a whole**: if composition succeeds the `OFX` instance satisfies every clause of
+    `RequestSpec` -/
+theorem requestStatements_spec (hS : ReqWF S = true) (hcv : ConvOK cv Ptext) (cfg : Cfg) (pw : Str)
+    (reqs : List Req) (us : Nat → Str) (dtc : DT)
+    (htexts : ∀ s ∈ cfg.texts, Ptext s) (hpw : Ptext pw) (hreqs : ∀ r ∈ reqs, ∀ s ∈ r.texts, Ptext s)
+    (hinj : ∀ i j, us i = us j → i = j) (hune : ∀ i, us i ≠ []) (huP : ∀ i, Ptext (us i))
+    {root : Node} (h : requestStatements S cv cfg pw reqs us dtc = .ok root) :
+    check S cfg pw dtc reqs (Int.ofNat cfg.version) root = [] := by
+  simp only [requestStatements] at h
+  obtain ⟨trnrqs, htr, h⟩ := bind_ok h
+  obtain ⟨msgs, hmsgs, h⟩ := bind_ok h
+  obtain ⟨so, hso, h⟩ := bind_ok h
+  -- the wrappers
+  have hgroups := forall2_imp (mapM_forall2 htr) (fun g t hgt => wrapGroup_inv hgt)
+  have hwrapAll : ∀ p ∈ (sortBy RKind.le Req.kind reqs).zipIdx, ∀ w, Rw S cv cfg us p w →
+      (expWrapper cfg p.1).ok S w = true ∧ isWrapper S p.1.kind w = true ∧
+        fieldVal w "trnuid" = .val (.str (us p.2)) := by
+    intro p hp w hpw
+    have hmem : p.1 ∈ reqs := (mem_sortBy RKind.le Req.kind p.1 reqs).mp (zipIdx_mem_fst _ 0 p hp)
+    exact wrap_spec hS hcv cfg p.1 (us p.2) htexts (hreqs p.1 hmem) (huP _) (hune _) hpw
+  obtain ⟨hrel, hitems⟩ := wrappers_flat _ trnrqs hgroups (fun p hp w hpw => (hwrapAll p hp w hpw).2.1)
+  -- the message sets
+  obtain ⟨hkeys2, hgrp2, hex2⟩ := group_sort MsgSet.le (fun t : MsgSet × List Node => t.1) msgset_order trnrqs
+  have hmsgs' := forall2_imp (mapM_forall2 hmsgs) (fun g e hge => msgArgs_inv hge)
+  -- the sign-on
+  obtain ⟨hsoc, cis, fs, rfl⟩ := signon_spec hS hcv cfg pw none dtc htexts hpw (by simp) hso
+  -- the root
+  obtain ⟨ciO, cO, hcO⟩ := reqWF_cls hS (name := "OFX") (tbl := tOFX) (by simp [reqTable])
+  have hmsgcls : ∀ m : MsgSet, ∃ ci c, ClsFits S m.className tMSGS ci c := by
+    intro m; cases m <;> exact reqWF_cls hS (by simp [reqTable, MsgSet.className])
+  have hkwfit : ∀ p ∈ (kv "signonmsgsrqv1" (.agg cis fs []) :: msgs), KwFit cO Ptext p := by
+    apply forall_kw_cons (kwFit_of hcO (k := "signonmsgsrqv1") (sh := .sub) (by simp) (fits_agg _ _ _))
+    intro e he
+    obtain ⟨g, hg, inst, rfl, hmk⟩ := rel2_mem_right hmsgs' he
+    obtain ⟨ciM, cM, hcM⟩ := hmsgcls g.1
+    obtain ⟨f, rfl, _⟩ := mk_spec hcv hcM (forall_kw_nil _) hmk
+    exact kwFit_of hcO (k := g.1.attrName) (sh := .sub) (by cases g.1 <;> simp [MsgSet.attrName]) (fits_agg _ _ _)
+  have hkeep : ∀ p ∈ (kv "signonmsgsrqv1" (.agg cis fs []) :: msgs), p.2 = .val .none ∨
+      p.1 ∈ ("signonmsgsrqv1" :: allMsgSets.map (·.attrName)).map String.toList := by
+    apply forall_kw_cons
+    · right; simp [kv]
+    · intro e he
+      obtain ⟨g, hg, inst, rfl, hmk⟩ := rel2_mem_right hmsgs' he
+      right
+      cases g.1 <;> simp [kv, allMsgSets, MsgSet.attrName]
+  obtain ⟨fO, rfl, hclsO, hfvO, hothO⟩ := mk_spec hcv hcO hkwfit h
+  have hothO' := hothO _ hkeep
+  -- what the root holds under each message set
+  have hval : ∀ m : MsgSet, fieldVal (.agg ciO fO []) m.attrName =
+      normNode ((lookup m.attrName.toList msgs).getD (.val .none)) := by
+    intro m
+    rw [hfvO]
+    have : "signonmsgsrqv1".toList ≠ m.attrName.toList := by
+      intro e; have := String.toList_inj.mp e; cases m <;> simp [MsgSet.attrName] at this
+    show normNode ((lookup m.attrName.toList (("signonmsgsrqv1".toList, _) :: msgs)).getD _) = _
+    rw [lookup_cons_ne this]
+  -- a request of message set m gives a group for m, and conversely
+  have hreq_grp : ∀ r ∈ reqs, ∃ gs, (r.kind.msgset, gs) ∈
+      groupBy (fun t : MsgSet × List Node => t.1) (sortBy MsgSet.le (fun t => t.1) trnrqs) := by
+    intro r hr
+    obtain ⟨i, hi⟩ := mem_zipIdx_of_mem ((mem_sortBy RKind.le Req.kind r reqs).mpr hr) 0
+    obtain ⟨g1, hg1⟩ := groupBy_exists (fun p : Req × Nat => p.1.kind) hi
+    obtain ⟨t, ht, ht1, _⟩ := rel2_mem_left hgroups hg1
+    obtain ⟨gs, hgs⟩ := hex2 t ht
+    exact ⟨gs, ht1 ▸ hgs⟩
+  have hgrp_req : ∀ t ∈ trnrqs, ∃ r ∈ reqs, r.kind.msgset = t.1 := by
+    intro t ht
+    obtain ⟨g1, hg1, ht1, hrel1⟩ := rel2_mem_right hgroups ht
+    obtain ⟨hne1, hall1⟩ := groupBy_mem (fun p : Req × Nat => p.1.kind) _ g1.1 g1.2 hg1
+    obtain ⟨p, hp⟩ := List.exists_mem_of_ne_nil _ hne1
+    obtain ⟨hk, hpsz⟩ := hall1 p hp
+    refine ⟨p.1, (mem_sortBy RKind.le Req.kind p.1 reqs).mp (zipIdx_mem_fst _ 0 p hpsz), ?_⟩
+    rw [ht1, ← hk]
+  have hM : ∀ m : MsgSet,
+      (reqs.filter (fun r => decide (r.kind.msgset = m)) = [] ∧
+        fieldVal (.agg ciO fO []) m.attrName = .val .none ∧ (trnrqs.flatMap (·.2)).filter (qm S m) = []) ∨
+      (reqs.filter (fun r => decide (r.kind.msgset = m)) ≠ [] ∧ ∃ ci f, fieldVal (.agg ciO fO []) m.attrName =
+          .agg ci f ((trnrqs.flatMap (·.2)).filter (qm S m)) ∧
+        isCls S m.className (.agg ci f ((trnrqs.flatMap (·.2)).filter (qm S m))) = true ∧
+        othersNone [] (.agg ci f ((trnrqs.flatMap (·.2)).filter (qm S m))) = true) := by
+    intro m
+    by_cases hex : ∃ g ∈ groupBy (fun t : MsgSet × List Node => t.1) (sortBy MsgSet.le (fun t => t.1) trnrqs),
+        g.1 = m
+    · right
+      obtain ⟨g, hg, rfl⟩ := hex
+      obtain ⟨hgne, hgeq⟩ := hgrp2 g.1 g.2 hg
+      refine ⟨?_, ?_⟩
+      · -- some request belongs to this message set
+        obtain ⟨t, ht⟩ := List.exists_mem_of_ne_nil _ hgne
+        rw [hgeq] at ht
+        obtain ⟨ht1, ht2⟩ := List.mem_filter.mp ht
+        obtain ⟨r, hr, hrm⟩ := hgrp_req t ht1
+        intro hnil
+        have : r ∈ reqs.filter (fun r => decide (r.kind.msgset = g.1)) := by
+          simp only [List.mem_filter, decide_eq_true_eq] at ht2 ⊢
+          exact ⟨hr, hrm.trans ht2⟩
+        rw [hnil] at this
+        simp at this
+      · obtain ⟨inst, hl, hmk⟩ := lookup_msgs_some hmsgs' (hkeys2.imp (fun h => h.2)) hg
+        obtain ⟨ciM, cM, hcM⟩ := hmsgcls g.1
+        obtain ⟨f, rfl, hclsM, _, hothM⟩ := mk_spec hcv hcM (forall_kw_nil _) hmk
+        have hit : g.2.flatMap (·.2) = (trnrqs.flatMap (·.2)).filter (qm S g.1) := by
+          rw [hgeq]; exact hitems g.1
+        refine ⟨ciM, f, ?_, ?_, ?_⟩
+        · rw [hval, hl, ← hit]; rfl
+        · rw [← hit]; exact hclsM
+        · rw [← hit]; exact hothM [] (by simp)
+    · left
+      have hno : ∀ g ∈ groupBy (fun t : MsgSet × List Node => t.1) (sortBy MsgSet.le (fun t => t.1) trnrqs),
+          g.1 ≠ m := fun g hg hgm => hex ⟨g, hg, hgm⟩
+      refine ⟨?_, ?_, ?_⟩
+      · apply List.filter_eq_nil_iff.mpr
+        intro r hr hrm
+        simp only [decide_eq_true_eq] at hrm
+        obtain ⟨gs, hgs⟩ := hreq_grp r hr
+        exact hno _ hgs hrm
+      · rw [hval, lookup_msgs_none hmsgs' m hno]; rfl
+      · rw [← hitems m]
+        have : trnrqs.filter (fun t => decide (t.1 = m)) = [] := by
+          apply List.filter_eq_nil_iff.mpr
+          intro t ht htm
+          simp only [decide_eq_true_eq] at htm
+          obtain ⟨gs, hgs⟩ := hex2 t ht
+          exact hno _ hgs htm
+        rw [this]; rfl
+  -- assemble the clauses
+  have hso' : fieldVal (.agg ciO fO []) "signonmsgsrqv1" = .agg cis fs [] := by
+    rw [hfvO]; simp [kwval, lookup, kv]
+  have hnodes : ∀ m : MsgSet, (fieldVal (.agg ciO fO []) m.attrName).items = (trnrqs.flatMap (·.2)).filter (qm S m) := by
+    intro m
+    rcases hM m with ⟨_, hnone, hnil⟩ | ⟨_, ci, f, hfv, _, _⟩
+    · rw [hnone, hnil]; rfl
+    · rw [hfv]; rfl
+  have hrel' : Rel2 (fun p w => fieldVal w "trnuid" = .val (.str (us p.2)) ∧
+      ∀ m, qm S m w = decide (p.1.kind.msgset = m)) (sortBy RKind.le Req.kind reqs).zipIdx (trnrqs.flatMap (·.2)) :=
+    forall2_imp (rel2_with_mem hrel) (fun p w hpw =>
+      ⟨(hwrapAll p hpw.2 w hpw.1).2.2, qm_of_wrapper (hwrapAll p hpw.2 w hpw.1).2.1⟩)
+  have h1 : headerClause cfg.version (Int.ofNat cfg.version) = [] := by simp [headerClause, clause]
+  have h2 : rootClauses S (allMsgSets.map (·.attrName)) (.agg ciO fO []) = [] := by
+    simp [rootClauses, clause, hclsO, Node.items, hothO']
+  have h3 : signonClauses S cfg cfg.userid pw dtc (fieldVal (.agg ciO fO []) "signonmsgsrqv1") = [] := by
+    rw [hso']; exact hsoc
+  have h4 : allMsgSets.flatMap (fun m => msgsetClauses S cfg reqs m (.agg ciO fO [])) = [] := by
+    apply List.flatMap_eq_nil_iff.mpr
+    intro m _
+    apply msgset_clauses_ok hS cfg reqs us m _ trnrqs hrel
+      (fun p hp w hpw => ⟨(hwrapAll p hp w hpw).2.1, (hwrapAll p hp w hpw).1⟩)
+    rcases hM m with ⟨a, b, _⟩ | hr
+    · exact Or.inl ⟨a, b⟩
+    · exact Or.inr hr
+  have h5 := trnuid_clause_ok us hinj (sortBy RKind.le Req.kind reqs) (.agg ciO fO []) _ hrel' hnodes
+  simp only [check, h1, h2, h3, h4, h5, List.append_nil]
+
+end
+/-! ## Part 10: account-info and profile requests -/
+
+section
+variable {S : Schema} {cv : Conv} {Ptext : Str → Prop}
+
+/-- a request made of the sign-on and one message set holding one wrapper -/
+theorem single_spec (hS : ReqWF S = true) (hcv : ConvOK cv Ptext) (cfg : Cfg) (userid password : Str) (dtc : DT)
+    (cfgVersion : Nat) {attr msgCls label : String} (hattr : (attr, Shape.sub) ∈ tOFX)
+    (hattr' : attr ≠ "signonmsgsrqv1") (hmsg : (msgCls, tMSGS) ∈ reqTable) {uuid : Str}
+    {cis : Nat} {fs : List (Str × Node)}
+    (hsoc : signonClauses S cfg userid password dtc (.agg cis fs []) = [])
+    {want : Exp} {trn : Node} (hwant : want.ok S trn = true) (htrn : fieldVal trn "trnuid" = .val (.str uuid))
+    {msgs root : Node} (hmsgs : mk S cv msgCls [trn] [] = .ok msgs)
+    (hroot : mk S cv "OFX" [] [kv "signonmsgsrqv1" (.agg cis fs []), kv attr msgs] = .ok root) :
+    checkSingle S cfg userid password dtc (Int.ofNat cfgVersion) cfgVersion attr msgCls label want root = [] := by
+  obtain ⟨ciM, cM, hcM⟩ := reqWF_cls hS hmsg
+  obtain ⟨fM, rfl, hclsM, _, hothM⟩ := mk_spec hcv hcM (forall_kw_nil _) hmsgs
+  obtain ⟨ciO, cO, hcO⟩ := reqWF_cls hS (name := "OFX") (tbl := tOFX) (by simp [reqTable])
+  obtain ⟨fO, rfl, hclsO, hfvO, hothO⟩ := mk_spec hcv hcO
+    (forall_kw_cons (kwFit_of hcO (k := "signonmsgsrqv1") (sh := .sub) (by simp) (fits_agg _ _ _))
+    (forall_kw_cons (kwFit_of hcO (k := attr) (sh := .sub) hattr (fits_agg _ _ _))
+    (forall_kw_nil _))) hroot
+  have hne : "signonmsgsrqv1".toList ≠ attr.toList := fun e => hattr' (String.toList_inj.mp e).symm
+  have hso' : fieldVal (.agg ciO fO []) "signonmsgsrqv1" = .agg cis fs [] := by
+    rw [hfvO]; simp [kwval, lookup, kv]
+  have hms' : fieldVal (.agg ciO fO []) attr = .agg ciM fM [trn] := by
+    rw [hfvO]
+    show normNode ((lookup attr.toList (("signonmsgsrqv1".toList, _) :: [(attr.toList, _)])).getD _) = _
+    rw [lookup_cons_ne hne]
+    simp [lookup]
+  have hoth := hothO ["signonmsgsrqv1", attr] (by simp [kv])
+  have hothM' := hothM [] (by simp)
+  simp [checkSingle, headerClause, rootClauses, trnuidClause, trnuidsOf, clause, hclsO, Node.items, hoth, hso', hsoc,
+    hms', hclsM, hothM', all2, hwant, htrn, strOf, nodupB]
+
+/-- `request_accounts`: if composition succeeds the instance satisfies the account-info request spec -/
+theorem requestAccounts_spec (hS : ReqWF S = true) (hcv : ConvOK cv Ptext) (cfg : Cfg) (pw : Str)
+    (dtacctup : Option DT) (us : Nat → Str) (dtc : DT) (htexts : ∀ s ∈ cfg.texts, Ptext s) (hpw : Ptext pw)
+    (hu : Ptext (us 0)) (hne : us 0 ≠ []) {root : Node}
+    (h : requestAccounts S cv cfg pw dtacctup us dtc = .ok root) :
+    checkAccounts S cfg pw dtc dtacctup (Int.ofNat cfg.version) root = [] := by
+  simp only [requestAccounts] at h
+  obtain ⟨so, hso, h1⟩ := bind_ok h
+  obtain ⟨rq, hrq, h2⟩ := bind_ok h1
+  obtain ⟨trn, htrn, h3⟩ := bind_ok h2
+  obtain ⟨msgs, hmsgs, hroot⟩ := bind_ok h3
+  clear h h1 h2 h3
+  obtain ⟨hsoc, cis, fs, rfl⟩ := signon_spec hS hcv cfg pw none dtc htexts hpw (by simp) hso
+  obtain ⟨ci, c, hc⟩ := reqWF_cls hS (name := "ACCTINFORQ") (tbl := tACCTINFORQ) (by simp [reqTable])
+  obtain ⟨f, rfl, hcls, hfv, hoth⟩ := mk_spec hcv hc
+    (forall_kw_cons (kwFit_of hc (k := "dtacctup") (sh := .date) (by simp) (fits_odt _)) (forall_kw_nil _)) hrq
+  have ho := hoth ["dtacctup"] (by simp [kv])
+  have he : (Exp.agg "ACCTINFORQ" [("dtacctup", .leaf (.date dtacctup))] []).ok S (.agg ci f []) = true := by
+    simp [Exp.ok, fieldsOk, fieldNames, all2, hcls, hfv, ho, Node.items, kwval, lookup, kv, want_date]
+  obtain ⟨hw, _, htr⟩ := trnrq_spec hS hcv (name := "ACCTINFOTRNRQ") (inner := "acctinforq")
+    (tbl := tACCTINFOTRNRQ) (by simp [reqTable]) (by simp) (by simp) (by decide) hu hne he htrn
+  exact single_spec hS hcv cfg cfg.userid pw dtc cfg.version (attr := "signupmsgsrqv1") (msgCls := "SIGNUPMSGSRQV1")
+    (by simp) (by decide) (by simp [reqTable]) hsoc hw htr hmsgs hroot
+
+/-- `_request_profile`: anonymous sign-on, PROFRQ with CLIENTROUTING NONE and the given (or the default) DTPROFUP -/
+theorem requestProfile_spec (hS : ReqWF S = true) (hcv : ConvOK cv Ptext) (cfg : Cfg)
+    (dtprofup : Option DT) (us : Nat → Str) (dtc : DT) (htexts : ∀ s ∈ cfg.texts, Ptext s)
+    (hph : Ptext authPlaceholder) (hnone : Ptext "NONE".toList)
+    (hu : Ptext (us 0)) (hne : us 0 ≠ []) {root : Node}
+    (h : requestProfile S cv cfg dtprofup us dtc = .ok root) :
+    checkProfile S cfg dtc dtprofup none (Int.ofNat cfg.version) root = [] := by
+  simp only [requestProfile] at h
+  obtain ⟨rq, hrq, h1⟩ := bind_ok h
+  obtain ⟨trn, htrn, h2⟩ := bind_ok h1
+  obtain ⟨so, hso, h3⟩ := bind_ok h2
+  obtain ⟨msgs, hmsgs, hroot⟩ := bind_ok h3
+  clear h h1 h2 h3
+  obtain ⟨hsoc, cis, fs, rfl⟩ := signon_spec hS hcv cfg authPlaceholder (some authPlaceholder) dtc htexts hph
+    (by intro s hs; simp only [Option.some.injEq] at hs; exact hs ▸ hph) hso
+  obtain ⟨ci, c, hc⟩ := reqWF_cls hS (name := "PROFRQ") (tbl := tPROFRQ) (by simp [reqTable])
+  obtain ⟨f, rfl, hcls, hfv, hoth⟩ := mk_spec hcv hc
+    (forall_kw_cons (kwFit_of hc (k := "clientrouting") (sh := .text) (by simp) (fits_sv hnone))
+    (forall_kw_cons (kwFit_of hc (k := "dtprofup") (sh := .date) (by simp) (fits_dt _)) (forall_kw_nil _))) hrq
+  have ho := hoth ["clientrouting", "dtprofup"] (by simp [kv])
+  have he : (Exp.agg "PROFRQ" [("clientrouting", .leaf (.str "NONE".toList)),
+      ("dtprofup", .leaf (.date (some (orDefault dtprofup defaultDtprofup))))] []).ok S (.agg ci f []) = true := by
+    have h1 : Want.ok (.str ['N', 'O', 'N', 'E']) (normNode (sv ['N', 'O', 'N', 'E'])) = true := by decide
+    simp [Exp.ok, fieldsOk, fieldNames, all2, hcls, hfv, ho, Node.items, kwval, lookup, kv, want_dt, h1]
+  obtain ⟨hw, _, htr⟩ := trnrq_spec hS hcv (name := "PROFTRNRQ") (inner := "profrq")
+    (tbl := tPROFTRNRQ) (by simp [reqTable]) (by simp) (by simp) (by decide) hu hne he htrn
+  exact single_spec hS hcv cfg authPlaceholder authPlaceholder dtc cfg.version (attr := "profmsgsrqv1")
+    (msgCls := "PROFMSGSRQV1") (by simp) (by decide) (by simp [reqTable]) hsoc hw htr hmsgs hroot
+
+end
+/-! ## Part 9: the header carries the version asked for -/
+
+open Ofx.Header
+
+def hdrVersion : Hdr → Int
+  | .v1 h => h.version
+  | .v2 h => h.version
+
+theorem wrapValueError_ok {α : Type} {x : PyM α} {a : α} (h : wrapValueError x = .ok a) : x = .ok a := by
+  unfold wrapValueError at h
+  split at h <;> simp_all
+
+theorem orElse_int (i : Int) (h : i ≠ 0) (d : Arg) : Arg.orElse (.int i) d = .int i := by
+  unfold Arg.orElse
+  split <;> simp_all
+
+/-- the header object `make_header(version)` returns carries that version -/
+theorem makeHeader_version (p1 : V1P) (p2 : V2P) (v : Nat) (s o n : Option Str) (hd : Hdr)
+    (h : makeHeader p1 p2 (.int (Int.ofNat v)) s o n = .ok hd) : hdrVersion hd = Int.ofNat v := by
+  simp only [makeHeader, toInt, bind, Except.bind, pure, Except.pure] at h
+  by_cases h1 : Int.ofNat v / 100 = 1
+  · simp only [h1, if_true] at h
+    split at h
+    · simp at h
+    · rename_i h1v hc
+      simp only [Except.ok.injEq] at h
+      subst h
+      have hc := wrapValueError_ok hc
+      have hv0 : (Int.ofNat v) ≠ 0 := by intro e; rw [e] at h1; simp at h1
+      obtain ⟨_, _, hc⟩ := bind_ok hc
+      obtain ⟨_, _, hc⟩ := bind_ok hc
+      obtain ⟨_, _, hc⟩ := bind_ok hc
+      obtain ⟨v', hv', hc⟩ := bind_ok hc
+      obtain ⟨v'', hv'', hc⟩ := bind_ok hc
+      obtain ⟨_, _, hc⟩ := bind_ok hc
+      obtain ⟨_, _, hc⟩ := bind_ok hc
+      obtain ⟨_, _, hc⟩ := bind_ok hc
+      obtain ⟨_, _, hc⟩ := bind_ok hc
+      obtain ⟨_, _, hc⟩ := bind_ok hc
+      obtain ⟨_, _, hc⟩ := bind_ok hc
+      simp only [pure, Except.pure, Except.ok.injEq] at hc
+      subst hc
+      simp only [hdrVersion]
+      have e1 : v' = Int.ofNat v := by
+        rw [orElse_int _ hv0] at hv'
+        simpa [toInt, pure, Except.pure] using hv'.symm
+      have e2 : v'' = v' := by
+        unfold integerConv at hv''
+        split at hv''
+        · split at hv'' <;> simp [throw, throwThe, MonadExceptOf.throw, pure, Except.pure] at hv''
+          exact hv''.symm
+        · simp [pure, Except.pure] at hv''; exact hv''.symm
+      rw [e2, e1]
+  · simp only [h1, if_false] at h
+    by_cases h2 : Int.ofNat v / 100 = 2
+    · simp only [h2, if_true] at h
+      split at h
+      · simp at h
+      · rename_i h2v hc
+        simp only [Except.ok.injEq] at h
+        subst h
+        rw [ctorV2] at hc
+        have hc := wrapValueError_ok hc
+        obtain ⟨v', hv', hc⟩ := bind_ok hc
+        obtain ⟨v'', hv'', hc⟩ := bind_ok hc
+        obtain ⟨_, _, hc⟩ := bind_ok hc
+        obtain ⟨_, _, hc⟩ := bind_ok hc
+        obtain ⟨_, _, hc⟩ := bind_ok hc
+        obtain ⟨_, _, hc⟩ := bind_ok hc
+        obtain ⟨_, _, hc⟩ := bind_ok hc
+        simp only [pure, Except.pure, Except.ok.injEq] at hc
+        subst hc
+        simp only [hdrVersion]
+        have e1 : v' = Int.ofNat v := by simpa [toInt, pure, Except.pure] using hv'.symm
+        have e2 : v'' = v' := by
+          unfold oneOfInt at hv''
+          split at hv'' <;> simp [throw, throwThe, MonadExceptOf.throw, pure, Except.pure] at hv''
+          exact hv''.symm
+        rw [e2, e1]
+    · split at h
+      · rename_i h2'; exact absurd h2' h2
+      · simp [throw, throwThe, MonadExceptOf.throw] at h
 
 end Ofx.Compose
